@@ -24,6 +24,16 @@ CHECKS = {
    note="Trusted: as C02. Which call reports DONE/FAIL is decided by correspondence with the model plus the direct predicates on the binary, not by a theorem.",
    technique="Lean protocol theorems on the runtime model + direct evaluation on binary call histories",
    design="5/C10"),
+ "C17": dict(cat="proof",
+   text="Lean theorems for every machine: once the program has reached its end end() returns DONE and changes nothing; an arm listing only end-of-input is never taken on a byte; end() only takes an arm listing end-of-input or the else arm; a consuming action-free else arm taken on end-of-input performs nothing. Per exported machine the decidable check endArmsOK (no data-pattern arm is taken on end-of-input) is evaluated; end() is called after every prefix of sampled inputs on the compiled binary (default and strict-done) and compared with the model.",
+   note="Trusted: as C02; which states are accepting and which else arms exist is the compiler's output, validated per instance.",
+   technique="Lean theorems on the machine model + per-machine decidable check + end() after every prefix on the binary",
+   design="5/C17"),
+ "C12": dict(cat="proof",
+   text="Options without any parameter in the runtime model (hook placement, user pointer, packed enums, guard style, range collapse) are independent by identity once every binary is shown equal to the one model run; Lean theorems show the cursor mode and zero-length flag are not inputs of the semantics (whole chunked session equal) and that hook calls/result codes do not depend on storage options (partial: the simulation through buffer events is not proved). Binaries built under 9 representation sets are run on the same inputs and compared with each other and with the model.",
+   note="Partial proof: storage-option independence through buffer events is established by the differential runs only. Trusted: as C02.",
+   technique="Lean independence theorems (partial) + differential runs of binaries across representation options",
+   design="5/C12"),
 }
 
 def main():
